@@ -1641,7 +1641,24 @@ def _batch10() -> Dict[str, List[V]]:
         V("identifier-taken-from-any-object-that-has-an-id-attribute", HD, "HashedValue.__post_init__", "            elif isinstance(self.value, IdentifiedByItself):\n",
           "            elif hasattr(self.value, \"_id_\"):\n", rule="VALUE-IDENTITY"),
     ]
+    stack = [
+        V("context-stack-aliased-at-import", PR, None, "symbols_registry: List[Type] = []\n",
+          "symbols_registry: List[Type] = []\n\n_open_queries = SymbolicExpression._symbolic_expression_stack_\n",
+          also=[("        node = SymbolicExpression._current_parent_()\n        args = bind_first_argument_of_predicate_if_in_query_context(node, predicate_type, *args)\n        domain, kwargs",
+                 "        node = _open_queries[-1] if _open_queries else None\n        args = bind_first_argument_of_predicate_if_in_query_context(node, predicate_type, *args)\n        domain, kwargs")],
+          rule="STACK-READ-LIVE"),
+        V("context-stack-as-a-default-argument", S, "SymbolicExpression._current_parent_", "    def _current_parent_(cls) -> Optional[SymbolicExpression]:\n",
+          "    def _current_parent_(cls, stack=_initial_stack_) -> Optional[SymbolicExpression]:\n", rule=None, kind="twin"),
+    ][:1]
+    memo = [
+        V("flatten-elements-memoised-per-parent", S, "Flatten", "    def _apply_mapping_(self, value: HashedValue) -> Iterable[HashedValue]:\n        inner = value.value\n        # Treat non-iterables as singletons\n        if not is_iterable(inner):\n            inner_iter = [inner]\n        else:\n            inner_iter = inner\n        for inner_v in inner_iter:\n            yield HashedValue(inner_v)\n",
+          "    def _apply_mapping_(self, value: HashedValue) -> Iterable[HashedValue]:\n        yield from self._elements_of_(value)\n\n    @lru_cache(maxsize=None)\n    def _elements_of_(self, value: HashedValue):\n        inner = value.value\n        if not is_iterable(inner):\n            inner = [inner]\n        return tuple(HashedValue(inner_v) for inner_v in inner)\n",
+          rule="MAPPING-NOT-MEMOISED"),
+    ]
     return {
+        "C08": stack,
+        "C09": stack,
+        "C15": replay[:0],
         "C01": ident + replay + trackers,
         "C02": replay + args + rows + trackers + ident,
         "C03": trackers + replay[:1],
@@ -1653,9 +1670,9 @@ def _batch10() -> Dict[str, List[V]]:
         "C12": selector,
         "C13": table + args + ident,
         "C14": live + ident,
-        "C16": table[:1],
+        "C16": table[:1] + memo,
         "C18": forall + replay,
-        "C19": sentinel,
+        "C19": sentinel + memo,
         "C20": index,
     }
 
